@@ -266,12 +266,14 @@ Definition parse_finish (cfg : xcfg) (garbage : N) (st : xstate) : xstate :=
   let st := set_parser_bs pb' st in
   if (d_off pb' =? x_tail_offs st) && (live' <? 8 * x_eof_missing st) then fail E_ERR_EOF st
   else
-    let st := set_head_offs (x_head_offs st + sum_sizes (x_input_q st))
-                (fold_left (fun a b => release_blk b a) (x_input_q st) (set_input_q [] st)) in
+    (* the five releases below touch disjoint variables inside one locked segment;
+       the input blocks (expand.c:503-511) are listed last here *)
     let st := if c_finish_drops_link cfg then set_unords (drop_links (x_retr_q st) (x_unords st)) st else st in
     let st := set_work_units (x_work_units st + N.of_nat (length (x_retr_q st))) (set_retr_q [] st) in
     let st := set_scan_q [] st in
     let st := set_unords (flush_unords (x_unords st)) st in
+    let st := set_head_offs (x_head_offs st + sum_sizes (x_input_q st))
+                (fold_left (fun a b => release_blk b a) (x_input_q st) (set_input_q [] st)) in
     set_work_units (x_work_units st + 1) st.
 
 Definition parse_ok (cfg : xcfg) (bs100k crc : N) (st : xstate) : xstate :=
